@@ -47,8 +47,22 @@ func TestVerif_C14Sess(t *testing.T) {
 		}
 		var cmds, replies []string
 		authed := false
+		directed := ci%4 == 3 // a refused exchange with valid credentials (foreign authorization identity), then MAIL
 		for i := 0; i < 1+r.intn(6); i++ {
-			switch k := r.intn(10); {
+			k := r.intn(10)
+			if directed && i == 0 {
+				err := cl.Auth(sasl.NewPlainClient("someone-else", "user", "ok"))
+				cmds = append(cmds, "CAuth None")
+				replies = append(replies, cBool(err == nil))
+				if err == nil {
+					authed = true
+				}
+				continue
+			}
+			if directed && i == 1 {
+				k = 0
+			}
+			switch {
 			case k < 4:
 				err := cl.Mail("sender@example.org", nil)
 				cmds = append(cmds, "CMail")
